@@ -17,6 +17,8 @@ def obligations(tier):
     for dt in ('date', 'datetime'):
         for mod in ('', 'before', 'after', 'since', 'until'):
             sl.append({'dtype': dt, 'mod': mod})
+        for mod in ('before', 'after', 'since', 'until'):
+            sl += [{'dtype': dt, 'mod': mod, 'fut': 'min', 'past': 'min'}, {'dtype': dt, 'mod': mod, 'fut': 'min'}, {'dtype': dt, 'mod': mod, 'same': 1, 'past': 'min'}]
         sl += [{'dtype': dt, 'same': 1}, {'dtype': dt, 'fut': 'min'}, {'dtype': dt, 'past': 'min'}, {'dtype': dt, 'fut': 'min', 'past': 'min'},
                {'dtype': dt, 'same': 1, 'mod': 'before'}]
     sl += [{'dtype': 'time'}, {'dtype': 'time', 'same': 1}, {'dtype': 'time', 'same': 1, 'mod': 'after'}]
